@@ -28,6 +28,8 @@ pub fn profile_many_deps() -> Profile {
     p.inline = 15;
     p.flatten = 12;
     p.unit_enum_bias = 20;
+    p.prefix_names = 25;
+    p.twin_names = 25;
     p
 }
 
